@@ -107,6 +107,14 @@ n, s = t
 ]
 
 ILL_TYPED = [
+	# names whose type is derived from themselves: the lazy resolution recurses until the interpreter's limit
+	'a = a\n',
+	'a = b\nb = a\n',
+	'for i in i:\n\tpass\n',
+	'def f() -> None:\n\ta = a + 1\n',
+	'x = [x for x in x]\n',
+	'class A(A):\n\tpass\n\na = A().x\n',
+	'def f(n: int) -> int:\n\treturn g(n)\n\ndef g(n: int) -> int:\n\treturn f(n)\n\nv = f(1)\nw = v.q\n',
 	'x = undefined_name\n',
 	'def f(a: int) -> int:\n\treturn a\n\ny = f(1, 2)\n',
 	'def f(a: int) -> int:\n\treturn a\n\ny = f()\n',
